@@ -449,9 +449,9 @@ theorem prop_sim (c : Cfg) (hct : c.t = tabs) (neg : Bool) (s : List Nat) :
       intro x hx
       simp only [List.mem_cons, List.mem_append, List.not_mem_nil, or_false] at hx
       rcases hx with rfl | hx | rfl
-      · refine ⟨?_, ?_, ?_, ?_, ?_⟩ <;> decide
+      · refine ⟨?_, ?_, ?_, ?_, ?_, ?_⟩ <;> decide
       · exact hplain x hx
-      · refine ⟨?_, ?_, ?_, ?_, ?_⟩ <;> decide
+      · refine ⟨?_, ?_, ?_, ?_, ?_, ?_⟩ <;> decide
     cases hsp : stringProps.contains pre with
     | true =>
       -- a property of strings
@@ -552,11 +552,11 @@ theorem prop_sim (c : Cfg) (hct : c.t = tabs) (neg : Bool) (s : List Nat) :
     intro x hx
     simp only [List.mem_cons, List.mem_append, List.not_mem_nil, or_false] at hx
     rcases hx with rfl | hx | rfl | hx | rfl
-    · refine ⟨?_, ?_, ?_, ?_, ?_⟩ <;> decide
+    · refine ⟨?_, ?_, ?_, ?_, ?_, ?_⟩ <;> decide
     · exact hplain x hx
-    · refine ⟨?_, ?_, ?_, ?_, ?_⟩ <;> decide
+    · refine ⟨?_, ?_, ?_, ?_, ?_, ?_⟩ <;> decide
     · exact (propChar_facts (g2 x hx)).2.2.2.2
-    · refine ⟨?_, ?_, ?_, ?_, ?_⟩ <;> decide
+    · refine ⟨?_, ?_, ?_, ?_, ?_, ?_⟩ <;> decide
   -- the crate: name index, then the value table
   have hfin : ∀ n, consumeEscapeLoop c.v (0x7D :: r') (key pre2) (some n) =
       match propertyFromStr (key pre2) (some n) false with
